@@ -434,6 +434,11 @@ class C02(ValProp):
             vseq = r.choice([['list', ve, 4], ['vec', ve, 2]])
             t = r.choice([seq, ['cont', 'u8', seq, 'u16'], ['cont', vseq, seq, vseq], ['list', vseq, 3], ['cont', vseq, ['Bl', 5], 'u8', vseq]])
             out.append(show(['val', t, g.val(t, 30)]))
+        # long sequences of variable-size elements (more than 1024 offsets)
+        for n_ in ([1025, 1100] if tier == 'quick' else [1024, 1025, 1500, 2049, 4097]):
+            e = r.choice([['Bl', 2], ['bl', 5], ['list', 'u8', 2], ['union', 'none', 'u8']])
+            t = r.choice([['list', e, 5000], ['vec', e, n_]])
+            out.append(show(['val', t, ['s'] + [g.val(e, 2) for _ in range(n_)]]))
         # variable-size sequences nested three and more levels deep, directly and through containers / unions
         for _ in range(self.n(tier) // 6):
             leaf = r.choice([['Bl', 8], ['bl', 9], ['list', 'u16', 3], ['union', 'none', 'u32']])
@@ -906,6 +911,15 @@ class DecProp(Prop):
             out.append(show(['dec', t, 'x', 'x', 'x']))
             out.append(show(['dec', ['union', t, 'u16'], 'x', 'x00', 'x']))
             out.append(show(['dec', ['cont', 'u8', ['union', 'none', t]], 'x', 'x070500000001', 'x']))
+        # a REJECTED bit field of more than 32 bytes, then valid decodes of other bit fields (nothing may be left behind)
+        for _ in range(3):
+            nb = r.choice([300, 512, 600, 1024])
+            raw = bytes(r.getrandbits(8) | 1 for _ in range(nb // 8 + r.choice([1, 2, 33])))
+            out.append(show(['dec', ['bl', nb], 'x', 'x' + raw.hex() + '00', 'x']))          # no delimiter in the last byte
+            out.append(show(['dec', ['bl', 1024], 'x', 'x0507', 'x']))
+            out.append(show(['dec', ['bv', nb], 'x', 'x' + ('ff' * ((nb + 7) // 8 + 1)), 'x']))  # too long / padding bits set
+            out.append(show(['dec', ['bv', 768], 'x', 'x' + ('01' * 96), 'x']))
+            out.append(show(['dec', ['bl', 9], 'x', 'x1f', 'x']))
         # the same raw bytes decoded first as integers / byte vectors, then (below) in boolean positions
         for t, hx in ((['list', 'u8', 8], '020380ff'), (['Bv', 1], '02'), (['Bv', 1], 'ff'), ('u8', '03'), (['vec', 'u8', 2], '8002'),
                       (['cont', 'u8', ['Bv', 1]], '0203')):
